@@ -130,6 +130,8 @@ def classes(spec):
         c.append("nS!=nP")
     if spec.get("huge_population"):
         c.append("huge-population")
+    if spec.get("limit_number_type"):
+        c.append("limits-as-" + spec["limit_number_type"])
     if spec.get("state_decl") == "odevariable" or spec.get("param_decl") == "odevariable":
         c.append("ODEVariable-declaration")
     return c
@@ -151,6 +153,11 @@ def state_argument(spec):
         return ", ".join(st[:len(st) // 2 + 1]) + "  " + " ".join(st[len(st) // 2 + 1:])
     if decl == "limits":
         lims = spec.get("limits") or [[0, None]] * len(st)
+        if spec.get("limit_number_type") in ("np.int64", "np.float64", "float"):
+            # limits as they come out of array arithmetic (x0.sum(), rng.integers(...)): numpy scalars / floats instead of Python ints
+            import numpy as np
+            cast = {"np.int64": np.int64, "np.float64": np.float64, "float": float}[spec["limit_number_type"]]
+            return [(s, tuple(None if v is None else cast(v) for v in l)) for s, l in zip(st, lims)]
         return [(s, (l[0], l[1])) for s, l in zip(st, lims)]
     if decl == "odevariable":
         from pygom import ODEVariable
